@@ -6,77 +6,88 @@ PROOF_NOTE = ("VCs are generated from the real source text of /repo/eaopack (re-
               "a non-discharged obligation becomes a violation only through a counter-model replayed on the real code.")
 
 META.update({
-    'C01': dict(level='other', assumptions=['A1', 'A2', 'A3', 'A5', 'A6'], explanation=(
-        "proved: every asset class under contract writes its dispatch rows on its own nodes (C01.nodes.*), the portfolio appends "
-        "the nodal block returned by create_nodal_restr with b=0 and type N and passes the mapping columns of all nodes (C01.asm.*), "
-        "missing disp_factor filled with 1. bounded (run-time twin on random small real portfolios, never counted as proved): the nested "
-        "function create_nodal_restr itself -- one row per (node, step) with dispatch, summing the factors of the d rows there " + PROOF_NOTE)),
+    'C01': dict(level='proof', assumptions=['A1', 'A2', 'A3', 'A5', 'A6'], explanation=(
+        "proved on the real source: (1) every asset class under contract writes its dispatch rows on its own nodes (C01.nodes.*); (2) "
+        "create_nodal_restr (loop invariant with ghost witnesses, symbolic number of steps and mapping rows): the sparse entries are in one-to-one "
+        "correspondence with the dispatch rows of the mapping, one nodal row per (node, step) that has dispatch, records (step, node) per row; (3) the "
+        "portfolio appends exactly that block with b = 0 and type N (C01.asm.*), missing disp_factor filled with 1; (4) Lean 4 + Mathlib lemma: the "
+        "linear form of nodal row r is the net flow at its recorded (step, node). Bounded (never counted as proved): reported dispatch "
+        "(io.extract_output run-time contract on arbitrary result vectors), balance of optimised flat / split / structured portfolios. " + PROOF_NOTE)),
     'C02': dict(level='proof', assumptions=['A2', 'A3', 'A4', 'A5', 'A6'], explanation=(
-        "LP data of SimpleContract, Transport, Storage (bounds = rate x dt, costs incl. spread sign rule, holding cost tail sums, "
-        "level rows, right-hand sides) and the discount factor formula (1+wacc)^(-elapsed years) are proved pointwise for symbolic grid "
-        "length and all parameter values. Not covered by a contract yet: take-or-pay rows (define_restr), MultiCommodityContract; "
-        "'same data => same optimum' is A6. " + PROOF_NOTE)),
+        "proved: LP data of SimpleContract, Transport, Storage (bounds = rate x dt, costs incl. spread sign rule, holding cost tail sums, level rows, "
+        "right-hand sides), the discount factor formula (1+wacc)^(-elapsed years), Asset.make_vector (constant / gridded array through the window's "
+        "index / interval data via values_to_grid, x dt if converted) and Timegrid.values_to_grid (loop invariant). Bounded: optimum and dispatch vs "
+        "an independent scipy/HiGHS textbook LP on random portfolios incl. multi-commodity contracts, DST grids, waccs; take periods "
+        "(define_restr is not under contract). 'same data => same optimum' is A6. " + PROOF_NOTE)),
     'C03': dict(level='proof', assumptions=['A1', 'A2', 'A3', 'A5'], explanation=(
-        "proved: the cvxpy problem handed to the solver is the assembled problem (bounds, one constraint per row class with the same "
-        "mask on A and b, objective -c@x, boolean declaration, result/status handling, dual bookkeeping, frame). Solver optimality / "
-        "feasibility itself is assumption A1 (external binary). ortools branch and SplitOptimProblem.optimize not under contract. " + PROOF_NOTE)),
+        "proved: the cvxpy problem handed to the solver is the assembled problem (bounds, one constraint per row class with the same mask on A and b, "
+        "objective -c@x, boolean declaration, result/status handling, dual bookkeeping, frame), also for the robust target. Solver optimality / "
+        "feasibility itself is assumption A1 (external binary). ortools branch and SplitOptimProblem.optimize are not under contract. " + PROOF_NOTE)),
     'C04': dict(level='proof', assumptions=['A2', 'A3', 'A5', 'A6'], explanation=(
-        "proved: Asset.dcf returns, per step, minus cost x value of the asset's variables, each counted once at the step of its first "
-        "mapping row (C04.dcf.*), under WF_OP as precondition (established by the assembly contract C07.asm.*). The summary/split/"
-        "periodic variants are not under contract yet. " + PROOF_NOTE)),
+        "proved: Asset.dcf returns, per step, minus cost x value of the asset's variables, each counted once at the step of its first mapping row "
+        "(C04.dcf.*), under WF_OP (established by the assembly contract C07.asm.*). Bounded: io.extract_output run-time contract (DCF table, summary "
+        "value) on arbitrary result vectors; split problems (with order books: unmapped variables) and interleaved histories. " + PROOF_NOTE)),
     'C05': dict(level='proof', assumptions=['A2', 'A3', 'A5', 'A6'], explanation=(
-        "proved: Storage LP data (rates = cap x dt, level rows incl. efficiency on the charge columns, cumulative inflow in the "
-        "right-hand sides, end level in the last row, no-simultaneous rows and binaries) and Storage.fill_level = physical level incl. "
-        "inflow. Not covered: time blocks (pandas date_range), max_store_duration, io charge/discharge series. " + PROOF_NOTE)),
+        "proved: Storage LP data (rates = cap x dt, level rows incl. efficiency on the charge columns, cumulative inflow in the right-hand sides, end "
+        "level in the last row, no-simultaneous rows and binaries whenever charge and discharge are separate variables) and Storage.fill_level = "
+        "physical level incl. inflow. Bounded: physical statements on optimised solutions over the option grid (two nodes x no-simult x efficiency "
+        "x cost; blocks, holding duration, windows), reported charge / discharge / fill level (extract_output contract). Known finding D30. " + PROOF_NOTE)),
     'C07': dict(level='proof', assumptions=['A2', 'A3', 'A5'], explanation=(
-        "proved: WF_OP of SimpleContract, Transport, Storage, OrderBook (lengths, mapping rows, l<=u, steps on grid) and the assembly "
-        "contract of Portfolio.setup_optim_problem for 1-3 assets with symbolic sizes (global index = own index + offset, vectors, "
-        "row embedding, nodal block). Asset count is a bound of the harness (list loop unrolled). " + PROOF_NOTE)),
+        "proved: WF_OP of SimpleContract, Transport, Storage, OrderBook, ScaledAsset (lengths, mapping rows, l<=u, steps on grid), the assembly "
+        "contract of Portfolio.setup_optim_problem for 1-3 assets with symbolic sizes (global index = own index + offset, vectors, row embedding, "
+        "nodal block) and create_nodal_restr (exactly one nodal row per (node, step) with dispatch). Asset count is a bound of the harness (list loop "
+        "unrolled). Bounded: well-formedness of periodic / coarse-frequency problems of four asset kinds. " + PROOF_NOTE)),
     'C08': dict(level='other', assumptions=['A2', 'A3', 'A4', 'A5'], explanation=(
-        "proved: restricted grid = index-consistent subset of [start,end) (C08.window.*), every dispatch row of the classes under "
-        "contract lies on it, empty windows are inert for Storage/Contract/Transport/OrderBook, no spurious raise. Take periods and "
-        "CHP not under contract. " + PROOF_NOTE)),
+        "proved: restricted grid = index-consistent subset of [start,end) (C08.window.*), set_restricted_grid passes the given window / the grid's own, "
+        "every dispatch row of the classes under contract lies on it, empty windows are inert for Storage/Contract/Transport/OrderBook/ScaledAsset, no "
+        "spurious raise. Bounded: take periods (define_restr) incl. asset windows reaching beyond the horizon. Known finding D25b. " + PROOF_NOTE)),
     'C09': dict(level='other', assumptions=['A2', 'A3', 'A5', 'A6'], explanation=(
-        "proved: the global variable index does not depend on names (offsets; C09.keys.*) and names are only compared for equality in "
-        "the functions under contract. Output labels (string concatenation) are not decided. " + PROOF_NOTE)),
+        "proved: the global variable index does not depend on names (offsets), names are only compared for equality in the functions under "
+        "contract, discount factors and restricted grid are rebuilt per asset from its own parameters (set_timegrid, set_restricted_grid: nothing of an "
+        "earlier user of the shared grid survives). Bounded: value under random permutations x naming schemes (numeric, prefixes). " + PROOF_NOTE)),
     'C10': dict(level='other', assumptions=['A2', 'A3', 'A5'], explanation=(
-        "proved: Asset.set_timegrid rebuilds the derived cache from the asset's own parameters from an arbitrary prior cache state, "
-        "frames of the set-up functions under contract (prices / orders not written). History enumeration is bounded. " + PROOF_NOTE)),
-    'C12': dict(level='other', assumptions=['A2', 'A3', 'A4', 'A5'], explanation="see C19.dt / C02.* (limits follow step length); unit-scaling lemmas"),
-    'C14': dict(level='other', assumptions=['A2', 'A3', 'A4', 'A5', 'A6'], explanation="proved: interval grids keep the reference grid's cumulative time / discount factors (C14.discount)."),
-    'C17': dict(level='other', assumptions=['A2', 'A3', 'A5', 'A6'], explanation="proved: costs_only returns exactly the cost vector of the full set-up for the classes under contract and the portfolio concatenation."),
-    'C18': dict(level='other', assumptions=['A1', 'A2', 'A3', 'A5', 'A6'], explanation="proved: the N dual is the dual of the N-class constraint and map_nodal_restr is passed through (placement chain, partial)."),
+        "proved: Asset.set_timegrid / Timegrid.set_restricted_grid rebuild the derived cache from an arbitrary prior state (also when the asset "
+        "already holds the same grid object), the set-up functions of four asset classes do so too ('same grid object, another asset's cache' case), "
+        "frames (prices / orders / interval dictionaries / portfolio object not written). Bounded: histories <= 3 incl. own-frequency assets and an "
+        "order book; structured assets. " + PROOF_NOTE)),
+    'C12': dict(level='other', assumptions=['A2', 'A3', 'A4', 'A5'], explanation="proved: dt = elapsed/unit for root (Tick) and coarse grids, make_vector converts with the window's own step lengths, storage holding cost uses each later step's own length; unit-scaling lemmas for every entry form. Bounded: real grids over DST in two units. Note A4: freq 'd' with a time zone is calendar-day based in pandas (bounded part decides it)."),
+    'C14': dict(level='other', assumptions=['A2', 'A3', 'A4', 'A5', 'A6'], explanation="proved: interval grids keep the reference grid's cumulative time / discount factors (C14.discount). setup_split_optim_problem / SplitOptimProblem are not under contract: bounded split-vs-unsplit scenarios (value, balance at all nodes, step numbering, DCF accounting, order books first / last)."),
+    'C17': dict(level='other', assumptions=['A1', 'A2', 'A3', 'A5', 'A6'], explanation="proved: costs_only returns exactly the cost vector of the full set-up for the classes under contract and the portfolio concatenation; robust target: one epigraph variable, one constraint -c_s@x >= DCF_min per sample after all rows, objective = epigraph variable, reported value under own costs. make_slp is not under contract: bounded block structure + EEV <= V_slp <= wait-and-see on real solves (incl. non-dispatch future variables)."),
+    'C18': dict(level='other', assumptions=['A1', 'A2', 'A3', 'A5', 'A6'], explanation="proved: the N dual is the dual of the N-class constraint; create_nodal_restr records (step, node) of every nodal row in row order; the portfolio's record lists all rows of type N (structured assets' first). Bounded: extract_output places -dual at the recorded (step, node); supergradient inequality on re-optimised portfolios (gapped activity, structured assets)."),
     'C19': dict(level='proof', assumptions=['A2', 'A3', 'A4', 'A5'], explanation=(
-        "proved under A4 (pandas date_range: Tick frequency = start + k*delta; anchored: strictly increasing inside [start,end]): root grid "
-        "(points, count, strictly increasing, inside [start,end), dt = elapsed/unit, Dt prefix sums, I = 0..T-1) and same-frequency "
-        "restricted grid (index-consistent subset, complete, discount factors). Coarse restricted grid, values_to_grid, prices_to_grid "
-        "not under contract yet. " + PROOF_NOTE)),
+        "proved under A4 (pandas date_range: Tick frequency = start + k*delta; anchored: strictly increasing inside [start,end]): root grid, "
+        "same-frequency restricted grid, coarse restricted grid (Tick), Timegrid.values_to_grid (value of the unique containing interval, NaN outside, "
+        "overlap rejected; explicit / implicit ends, scalar forms; loop invariant), make_vector (gridded arrays pass through). Bounded: real "
+        "grids over DST, prices_to_grid. " + PROOF_NOTE)),
     'C20': dict(level='proof', assumptions=['A2', 'A3', 'A5', 'A6'], explanation=(
-        "proved: OrderBook LP data -- one variable per order in [0,1], cost = capa x price x sum of dt x df over covered steps, one "
-        "mapping row per (order, covered step) with factor capa x dt, bool flag iff full execution, empty cover => zero cost and no row; "
-        "the order loop is summarised for a symbolic number of orders. io 'special' output not under contract. " + PROOF_NOTE)),
+        "proved: OrderBook LP data -- one variable per order in [0,1], cost = capa x price x sum of dt x df over covered steps, one mapping row per "
+        "(order, covered step) with factor capa x dt, bool flag iff full execution, empty cover => zero cost and no row; symbolic number of orders; also "
+        "when the book already holds the grid object with another asset's cache. Bounded: 'special' output lines (extract_output contract). " + PROOF_NOTE)),
 })
 
 META.update({
     'C06': dict(level='other', assumptions=['A1', 'A2', 'A3', 'A5'], explanation=(
         "proved (unbounded horizon): row families of _add_constrains_for_start_and_shutdown, _add_constraints_for_min_runtime, "
         "_add_constraints_for_min_downtime, _add_constraints_for_heat from the real source, and the exactness lemmas C06.minrun/.mindown "
-        "sound+complete, start flag at every transition. bounded (never counted as proved): Plant assembled by the real driver, all 2^T "
-        "on/off patterns for T in {4,5} pinned in the MIP and decided by SCIP vs a reference predicate. " + PROOF_NOTE)),
+        "sound+complete, start flag at every transition. Bounded (never counted as proved): Plant assembled by the real driver, all 2^T on/off patterns "
+        "pinned in the MIP vs a reference predicate; every clause of the statement (off => 0, capacity band, ramps incl. first step, start flags, heat "
+        "share, fuel) on optimised CHP solutions. Capacity / ramp / fuel rows are not under contract. " + PROOF_NOTE)),
     'C11': dict(level='other', assumptions=['A5'], explanation=(
         "exact part: attribute / parameter / dropped-key sets are read off the real AST on every run (finite sets: C11.keys.<K>, C11.grid.tz). "
         "bounded part: round trips on enumerated instances. Known finding D15-LinkedAsset.")),
     'C13': dict(level='other', assumptions=['A1', 'A2', 'A4'], explanation=(
-        "no function contract reaches __make_periodic__ or __extend_mapping_to_minor_grid__ (nested data-dependent pandas loops): the "
-        "property is decided by bounded stand-ins only (periodic / coarse contract vs independent scipy LP with equalities; coarse grid "
-        "partition on real grids) -- nothing here is counted as proved.")),
+        "proved: coarse grid construction (members, first member, dt total, discount). No function contract reaches __make_periodic__ or "
+        "__extend_mapping_to_minor_grid__ (nested data-dependent pandas loops): the equivalence is decided by bounded stand-ins -- periodic and "
+        "coarse-frequency assets of four kinds (one / two variables per step, one / several mapping rows) vs independent scipy LPs with explicit "
+        "equalities, constant rate within coarse intervals over DST -- never counted as proved.")),
     'C15': dict(level='other', assumptions=['A2', 'A3', 'A5'], explanation=(
-        "proved on the real source (fix_time_window case of the assembly contract): pinned only if in the window, others untouched, costs "
-        "untouched, frame. The converse (every window variable is pinned) needs a first-occurrence (well-ordering) argument the solver "
-        "does not do: bounded scenarios. " + PROOF_NOTE)),
+        "proved on the real source (fix_time_window case of the assembly contract): pinned only if in the window, others untouched, costs untouched, "
+        "frame. The converse (every window variable is pinned) needs a first-occurrence argument: bounded scenarios incl. variables spanning several "
+        "steps (own frequency, periodicity) and multi-row variables. " + PROOF_NOTE)),
     'C16': dict(level='other', assumptions=['A2', 'A3', 'A5', 'A6'], explanation=(
-        "proved: ScaledAsset.setup_optim_problem LP data for bases with one mapping row per variable. The step from the LP data to 'behaves "
-        "like the base with capacities x s/S' is A6 + bounded scenarios. StructuredAsset not under contract. " + PROOF_NOTE)),
+        "proved: ScaledAsset.setup_optim_problem LP data for bases with one mapping row per variable. The step from the LP data to 'behaves like the "
+        "base with capacities x s/S' is A6 + bounded scenarios. StructuredAsset is not under contract: bounded (value vs flat portfolio, balance, nodal "
+        "prices, wrapped objects unchanged). " + PROOF_NOTE)),
 })
 
 from . import c06  # noqa
